@@ -49,7 +49,8 @@ assumptions(PROP, [
     "integration) are not part of the statement and are not generated",
     "tolerance TOL(z) = 1.01 phi(z) [2 eps (|lg m_L| + |lg m_S|)/s + 8 eps |z|] + 16 eps Phi(z): double-precision evaluation of Phi(z) "
     "including the conditioning of z; relative in the lower tail, no absolute floor (see module docstring)",
-    "load scatter vanishes as s_L = s_S * 10^-k, k <= 40 (s_L = 0 itself is outside: the density is not defined)",
+    "load scatter vanishes as s_L = s_S * 10^-k, k <= 40; s_L = 0 exactly occurs as entries of the scatter array of the vector clause "
+    "(the closed form is defined there and must give the deterministic-load value at those points only)",
     "vector calls use numpy float arrays (lists fail on the unchanged tree in sc**2 and are not generated); shapes (N,) against (N,) or scalars",
     "pf_arbitrary_load gets log10 load values and the density over log10 load (as in the repository's own test)",
 ])
@@ -256,7 +257,17 @@ def _vector(draw, tier):
     for _ in range(n):
         sS, sL = draw(_scatters())
         pts.append([draw(_lg(1.0, 1e4)), sS, sL, draw(_z)])
-    return {"points": pts, "form": draw(st.sampled_from(["all_arrays", "all_arrays", "scalar_load_std", "scalar_strength", "scalar_load"]))}
+    form = draw(st.sampled_from(["all_arrays", "all_arrays", "all_arrays", "scalar_load_std", "scalar_strength", "scalar_load"]))
+    if form == "all_arrays" and draw(st.booleans()):
+        # a scatter array running down to exactly 0 (deterministic load at some points): the closed form is defined there and equals
+        # pf_simple_load; the other points keep their own scatter
+        zero = draw(st.lists(st.booleans(), min_size=n, max_size=n))
+        if all(zero):
+            zero[draw(st.integers(0, n - 1))] = False
+        for q, z0 in zip(pts, zero):
+            if z0:
+                q[2] = 0.0
+    return {"points": pts, "form": form}
 
 
 @subcheck(PROP, "vector_call", strategy=_vector, quick=800, thorough=25000,
@@ -278,6 +289,9 @@ def vector_call(case, ctx):
             q[2] = pts[0][2]
     n = len(pts)
     ctx.label(form, "n=%d" % n)
+    nzero = sum(1 for q in pts if q[2] == 0.0)
+    if nzero:
+        ctx.label("load_std_all_zero" if nzero == n else "load_std_mixes_zero_and_positive")
     arr = lambda i: np.array([q[i] for q in pts], dtype=float)
     FP = _fp()
     if form == "scalar_strength":
